@@ -45,6 +45,10 @@ func (h264dp *h264Depacketizer) Depacketize(packet *Packet) (err error) {
 	// |F|NRI|  Type   |
 	// +---------------+
 	naluType := payload[0] & h264.NalTypeBitmask
+	if naluType != h264.NalFuAInRtp {
+		// 分片单元进行中收到了其它包：该单元已不完整或已被后面的包越过，放弃它以保持输出顺序
+		h264dp.fragments = h264dp.fragments[:0]
+	}
 
 	switch {
 	case naluType < h264.NalStapaInRtp:
